@@ -244,6 +244,34 @@ impl<K, V> HashMap<K, V> {
         ExtractIf { map: self, pos: 0, f }
     }
 
+    pub fn keys(&self) -> Keys<'_, K, V> {
+        Keys { inner: self.iter() }
+    }
+
+    pub fn values(&self) -> Values<'_, K, V> {
+        Values { inner: self.iter() }
+    }
+
+    pub fn retain<F>(&mut self, mut f: F)
+    where
+        F: FnMut(&K, &mut V) -> bool,
+    {
+        let mut i = 0;
+        rep!({
+            if let Some(s) = self.slots_mut_opt() {
+                let keep = match &mut s[i] {
+                    Some(kv) => f(&kv.0, &mut kv.1),
+                    None => true,
+                };
+                if !keep {
+                    s[i] = None;
+                }
+            }
+            i += 1;
+        });
+        let _ = i;
+    }
+
     /// verification-only: the raw slot, for whole-view postconditions
     pub fn slot(&self, i: usize) -> Option<&(K, V)> {
         match self.slots() {
@@ -282,6 +310,16 @@ impl<K: PartialEq, V> HashMap<K, V> {
 
     pub fn contains_key(&self, k: &K) -> bool {
         self.find(k).is_some()
+    }
+
+    pub fn get_mut(&mut self, k: &K) -> Option<&mut V> {
+        match self.find(k) {
+            Some(i) => match &mut self.slots_mut()[i] {
+                Some(kv) => Some(&mut kv.1),
+                None => None,
+            },
+            None => None,
+        }
     }
 
     pub fn insert(&mut self, k: K, v: V) -> Option<V> {
@@ -377,6 +415,28 @@ impl<'a, K, V> Iterator for Iter<'a, K, V> {
     }
 }
 
+pub struct Keys<'a, K, V> {
+    inner: Iter<'a, K, V>,
+}
+
+impl<'a, K, V> Iterator for Keys<'a, K, V> {
+    type Item = &'a K;
+    fn next(&mut self) -> Option<&'a K> {
+        self.inner.next().map(|kv| kv.0)
+    }
+}
+
+pub struct Values<'a, K, V> {
+    inner: Iter<'a, K, V>,
+}
+
+impl<'a, K, V> Iterator for Values<'a, K, V> {
+    type Item = &'a V;
+    fn next(&mut self) -> Option<&'a V> {
+        self.inner.next().map(|kv| kv.1)
+    }
+}
+
 impl<'a, K, V> IntoIterator for &'a HashMap<K, V> {
     type Item = (&'a K, &'a V);
     type IntoIter = Iter<'a, K, V>;
@@ -464,7 +524,53 @@ impl<T> Default for HashSet<T> {
     }
 }
 
+impl<T> HashSet<T> {
+    pub fn len(&self) -> usize {
+        let b = &self.store;
+        let mut n = 0;
+        let mut i = 0;
+        rep!({
+            if b[i].is_some() {
+                n += 1;
+            }
+            i += 1;
+        });
+        let _ = i;
+        n
+    }
+
+    pub fn is_empty(&self) -> bool {
+        self.len() == 0
+    }
+
+    pub fn clear(&mut self) {
+        let mut i = 0;
+        rep!({
+            self.store[i] = None;
+            i += 1;
+        });
+        let _ = i;
+    }
+}
+
 impl<T: PartialEq> HashSet<T> {
+    pub fn remove(&mut self, t: &T) -> bool {
+        let mut i = 0;
+        rep!({
+            let hit = match &self.store[i] {
+                Some(x) => x == t,
+                None => false,
+            };
+            if hit {
+                self.store[i] = None;
+                return true;
+            }
+            i += 1;
+        });
+        let _ = i;
+        false
+    }
+
     pub fn contains(&self, t: &T) -> bool {
         let b = &self.store;
         let mut i = 0;
